@@ -1,4 +1,190 @@
-import Varlink.Lifecycle
+/-
+  C15 — the idle timeout fires only when idle, and then always; serving that ends by timeout releases
+  the endpoint. Same transition system as C14 (`Varlink/Lifecycle.lean`), calls started with `tmo = true`.
+-/
+import VarlinkProofs.Lemmas.LifecycleTimeout
+import Varlink.Expected
+import Varlink.Extracted.Skeleton
 namespace Varlink.C15
 open Varlink.Life
+
+/-- the timeout path of the model is the one of the code: same regenerated skeleton as C14 (in particular the
+    accept loop's `if is-timeout { lock; if read conncounter==0 { unlock; return ServiceTimeoutError } unlock; continue }`
+    and the teardown that closes the field listener) -/
+theorem skeleton_matches : Varlink.Extracted.skeleton = Varlink.Expected.skeleton := by decide
+
+/-- **timeout_only_when_idle**: in any reachable state, the step that makes a call's return value the timeout
+    error is that call's own check right after an accept expiry (`pc = errTimeout`, last Accept result = expiry),
+    it finds `conncounter = 0`, and then (accounting invariant) no accepted connection is still open: every
+    connection is before its counter increment or after its handler's `conn.Close()` and counter decrement. -/
+theorem timeout_only_when_idle {w w' : World} {a : Label} (h : Reachable w) (hs : step w a = some w')
+    {k : Nat} {c c' : Call} (hk : w.calls[k]? = some c) (hk' : w'.calls[k]? = some c')
+    (hnew : c'.ret = some .timeout) (hold : c.ret ≠ some .timeout) :
+    a = .call k ∧ c.pc = .errTimeout ∧ c.lastAcc = .timeout ∧ w.counter = 0 ∧
+    (∀ (i : Nat) (x : Conn), w.conns[i]? = some x → inCounter x.phase = false) := by
+  have hinv := inv_reachable h
+  have hacc := accInv_reach h
+  by_cases ha : a = .call k
+  · subst ha
+    obtain ⟨hpc, h0, _⟩ := (own_step_timeout_facts hs hk hk').2 hnew hold
+    refine ⟨rfl, hpc, hacc k c hk hpc, h0, ?_⟩
+    intro i x hi
+    have : cnt cntd w.conns = 0 := by rw [← hinv.counterOk]; exact h0
+    exact cnt_zero_forall cntd this hi
+  · exfalso
+    by_cases ha2 : a = .expire k
+    · subst ha2
+      simp only [step, stepExpire, hk] at hs
+      split at hs
+      · split at hs
+        · simp only [Option.some.injEq] at hs; subst hs
+          rw [setCall_get hk] at hk'; simp only [Option.some.injEq] at hk'; subst hk'
+          exact hold hnew
+        · cases hs
+      · cases hs
+    · obtain ⟨c1, hk1, hsame⟩ := other_step (rel_of_step hs) hk ha ha2
+      rw [hk'] at hk1; simp only [Option.some.injEq] at hk1; subst hk1
+      rw [hsame.2.2.1] at hnew; exact hold hnew
+
+/-- **open_connection_blocks_timeout**: while an accepted connection is open (counted and not yet closed by its
+    handler), an expiry of the accept deadline is followed by the counter check and leads back to the loop check:
+    the call does not return and its return value stays unset. -/
+theorem open_connection_blocks_timeout {w : World} (h : Reachable w) {k l : Nat} {c : Call}
+    (hk : w.calls[k]? = some c) (hpc : c.pc = .inAccept) (hl : c.l = some l)
+    (ho : isOpen w l = true) (harm : isArmed w l = true)
+    {i : Nat} {x : Conn} (hi : w.conns[i]? = some x) (hopen : inCounter x.phase = true) :
+    ∃ w2 c2, run w [.expire k, .call k] = some w2 ∧ w2.calls[k]? = some c2 ∧ c2.pc = .loopCheck ∧ c2.ret = c.ret ∧
+      w2.running = w.running ∧ w2.lst = w.lst ∧ w2.counter = w.counter := by
+  have hinv := inv_reachable h
+  have hpos : w.counter ≠ 0 := by
+    have := cnt_pos_of_mem cntd hi (by simpa [cntd] using hopen)
+    rw [hinv.counterOk]; omega
+  have h1 : step w (.expire k) = some (w.setCall k { c with pc := .errTimeout, lastAcc := .timeout }) := by
+    simp [step, stepExpire, hk, hpc, hl, ho, harm]
+  have h2 : step (w.setCall k { c with pc := .errTimeout, lastAcc := .timeout }) (.call k) =
+      some ((w.setCall k { c with pc := .errTimeout, lastAcc := .timeout }).setCall k
+              { c with pc := .loopCheck, lastAcc := .timeout }) := by
+    simp only [step, stepCall, setCall_get hk, setCall_counter, hpos, if_false]
+  exact ⟨_, _, run_two h1 h2, setCall_get (setCall_get hk), rfl, rfl, rfl, rfl, rfl⟩
+
+/-- **next_expiry_after_last_close_fires**: when no accepted connection is open any more (`conncounter = 0`), the
+    next expiry of the accept deadline ends serving: the counter check sends the call to its teardown with the
+    timeout error as return value. -/
+theorem next_expiry_after_last_close_fires {w : World} {k l : Nat} {c : Call}
+    (hk : w.calls[k]? = some c) (hpc : c.pc = .inAccept) (hl : c.l = some l)
+    (ho : isOpen w l = true) (harm : isArmed w l = true) (h0 : w.counter = 0) :
+    ∃ w2 c2, run w [.expire k, .call k] = some w2 ∧ w2.calls[k]? = some c2 ∧ c2.pc = .teardown ∧
+      c2.ret = some .timeout := by
+  have h1 : step w (.expire k) = some (w.setCall k { c with pc := .errTimeout, lastAcc := .timeout }) := by
+    simp [step, stepExpire, hk, hpc, hl, ho, harm]
+  have h2 : step (w.setCall k { c with pc := .errTimeout, lastAcc := .timeout }) (.call k) =
+      some ((w.setCall k { c with pc := .errTimeout, lastAcc := .timeout }).setCall k
+              { c with pc := .teardown, lastAcc := .timeout, ret := some .timeout }) := by
+    simp only [step, stepCall, setCall_get hk, setCall_counter, h0, if_true]
+  exact ⟨_, _, run_two h1 h2, setCall_get (setCall_get hk), rfl, rfl⟩
+
+/-- under the orderly discipline a call that serves with a timeout always has the deadline armed when it blocks in
+    Accept on an open listener, so the expiry label of the two theorems above is enabled -/
+example : ∃ w, run init [.spawn .bind false (some 0), .call 0, .call 0, .call 0, .call 0,
+      .spawn .doListen true none, .call 1, .call 1, .call 1, .call 1] = some w ∧
+      (w.calls[1]?).map (·.pc) = some .inAccept ∧ isArmed w 0 = true ∧ isOpen w 0 = true ∧ w.counter = 0 := by
+  refine ⟨_, rfl, ?_⟩; decide
+
+/-- **no_timeout_never_stops**: if no serving call is started with a timeout and nobody calls Shutdown (orderly
+    use otherwise arbitrary: any clients, faults, cancellations, refused binds, re-serves), then in every reachable
+    state no expiry label is enabled, every call that has entered its accept loop is still in it with the service
+    running and its listener open, and nothing has ever returned except start-up errors (and `nil` of a stand-alone
+    Bind): started without a timeout, the service never stops by itself. -/
+theorem no_timeout_never_stops {w : World} (h : Reach Quiet init w) :
+    (∀ k, step w (.expire k) = none) ∧
+    (∀ (k : Nat) (c : Call), w.calls[k]? = some c →
+      goodRet c ∧
+      (loopPc c.pc = true → w.running = true ∧ c.pc ≠ .errOther ∧ c.pc ≠ .errTimeout ∧
+        ∃ l, c.l = some l ∧ isOpen w l = true)) := by
+  obtain ⟨ho, hn, hs⟩ := quiet_invs h
+  constructor
+  · intro k
+    simp only [step, stepExpire]
+    cases hk : w.calls[k]? with
+    | none => rfl
+    | some c =>
+      simp only []
+      split
+      · rename_i l _ _
+        have : isArmed w l = false := by
+          simp only [isArmed]
+          cases hx : w.lsnrs[l]? with
+          | none => rfl
+          | some x => exact hn.lsnrs l x hx
+        simp [this]
+      · rfl
+  · intro k c hk
+    obtain ⟨_, s2, s3⟩ := hs.call k c hk
+    refine ⟨s3, fun hp => ?_⟩
+    obtain ⟨r1, r2, r3⟩ := s2 hp
+    obtain ⟨e1, e2⟩ := (ho.own k c hk).loopL hp
+    obtain ⟨l, hl⟩ := Option.isSome_iff_exists.mp e2
+    exact ⟨r1, r2, r3, l, hl, hs.lstOpen l (by rw [← e1]; exact hl)⟩
+
+/-- the hypotheses are satisfiable by a serving state with an open connection -/
+example : ∃ w, Reach Quiet init w ∧ (w.calls[1]?).map (·.pc) = some .inAccept ∧ w.counter = 1 :=
+  ⟨_, quiet_of_runB [.spawn .bind false (some 0), .call 0, .call 0, .call 0, .call 0,
+      .spawn .doListen false none, .call 1, .call 1, .call 1, .clientConnect 0, .call 1, .call 1, .call 1, .call 1]
+      rfl (by decide), by decide, by decide⟩
+
+/-- **timeout_releases_endpoint**: (orderly use) a serving call whose return value is the timeout error closes the
+    listener it served in its teardown — the address is free for a new bind at once (`addrInUse = false`, which is
+    exactly the guard of the `listen` step) — and from then on, for ever, the listener is closed and every client
+    connecting to it is refused. -/
+theorem timeout_releases_endpoint {w : World} (h : OReach w) {k : Nat} {c : Call} (hk : w.calls[k]? = some c)
+    (hret : c.ret = some .timeout) :
+    ∃ l, c.l = some l ∧
+      (c.pc = .teardown → ∃ x w', w.lsnrs[l]? = some x ∧ step w (.call k) = some w' ∧ Closed w' l ∧
+          (x.isOpen = true → addrInUse w' x.addr = false)) ∧
+      (c.pc = .waiting ∨ c.pc = .returned → Closed w l ∧
+          ∀ w1, step w (.clientConnect l) = some w1 → (w1.conns[w.conns.length]?).map (·.phase) = some .refused) := by
+  obtain ⟨_, hv, ho⟩ := oreach_invs h
+  have hown := ho.own k c hk
+  obtain ⟨l, hl⟩ := Option.isSome_iff_exists.mp (hown.timeoutL hret)
+  refine ⟨l, hl, ?_, ?_⟩
+  · intro hpc
+    have hlst : w.lst = some l := by rw [← hown.tearL hpc]; exact hl
+    have hlt := hv.lst l hlst
+    have hx : w.lsnrs[l]? = some w.lsnrs[l] := by simp [hlt]
+    refine ⟨_, (teardownShared w).setCall k { c with pc := .waiting }, hx, by simp only [step, stepCall, hk, hpc], ?_, ?_⟩
+    · exact closed_teardown hv hlst
+    · intro hopen
+      have hu := uniqueOpen_reach h
+      have := addr_free_after_close hu hx hopen
+      simpa [addrInUse, teardownShared, hlst] using this
+  · intro hpc
+    have hcl := hown.closedL hpc (Or.inl (by rw [hret]; simp)) l hl
+    refine ⟨hcl, ?_⟩
+    intro w1 hs
+    simp only [step, stepConnect] at hs
+    split at hs
+    · simp only [Option.some.injEq] at hs; subst hs
+      simp [isOpen_false_of_closed hcl]
+    · cases hs
+
+/-- a timeout return reached under the orderly discipline (non-vacuity), and what follows: connect refused, address free -/
+example : ∃ w, OReach w ∧ (w.calls[1]?).map (fun c => (c.pc, c.ret)) = some (.returned, some .timeout) ∧
+    isOpen w 0 = false ∧ addrInUse w 0 = false ∧
+    ((step w (.clientConnect 0)).bind fun w1 => (w1.conns[0]?).map (·.phase)) = some .refused :=
+  ⟨_, reach_of_runB [.spawn .bind false (some 0), .call 0, .call 0, .call 0, .call 0,
+      .spawn .doListen true none, .call 1, .call 1, .call 1, .call 1, .expire 1, .call 1, .call 1, .call 1] rfl,
+    by decide, by decide, by decide, by decide⟩
+
+/-- regression witness for the repaired defect (fix 9038523): with the OLD teardown — fields cleared, listener not
+    closed — the same timeout history leaves the endpoint open: a later client is queued on a listener nobody will
+    ever accept from, and the address stays in use. -/
+example :
+    ((run init [.spawn .bind false (some 0), .call 0, .call 0, .call 0, .call 0,
+                .spawn .doListen true none, .call 1, .call 1, .call 1, .call 1, .expire 1, .call 1]).bind fun w =>
+      (w.calls[1]?).bind fun c =>
+        let w' := (teardownSharedOld w).setCall 1 { c with pc := .waiting }       -- OLD teardown
+        (run w' [.call 1, .clientConnect 0]).map fun w2 =>
+          ((w2.calls[1]?).map (fun c => (c.pc, c.ret)), isOpen w2 0, addrInUse w2 0, (w2.conns[0]?).map (·.phase))) =
+    some (some (.returned, some .timeout), true, true, some .backlog) := by decide
+
 end Varlink.C15
